@@ -557,10 +557,12 @@ func histTx(ctx *pbt.Ctx, c Hist) error {
 		}
 	}
 	// after the last step: every kept object and every kept JSON text once more
-	for _, k := range held {
+	for _, k := range held { // first every kept object, before the library is called again
 		if err := k.verify("kept until after the last step"); err != nil {
 			return err
 		}
+	}
+	for _, k := range held {
 		if err := k.again(c); err != nil {
 			return err
 		}
@@ -700,10 +702,12 @@ func histObj(ctx *pbt.Ctx, c Hist) error {
 		editedSinceMarshal = true
 		ctx.Label("edit:" + c.Kind + "." + s.Op)
 	}
-	for _, k := range held {
+	for _, k := range held { // first every kept object, before the library is called again
 		if err := k.verify("kept until after the last step"); err != nil {
 			return err
 		}
+	}
+	for _, k := range held {
 		if err := k.again(c); err != nil {
 			return err
 		}
